@@ -1,6 +1,6 @@
 SPECIFICATION Spec
 CONSTANTS
   N = 4
-  TopIdentityLost = FALSE
+  TopIdentityLost = TRUE
 INVARIANT Bounded
 INVARIANT Correct
